@@ -44,8 +44,19 @@ TOpened ==
     /\ IF Rec[l].res = OK THEN UNCHANGED taint
        ELSE Report("open", {OK}) /\ taint' = TRUE
 
+\* a history that starts on an existing file (C15: golden files of the pinned release): the
+\* committed state is the recorded logical content of that file
+TLoad ==
+    /\ IsEv("load")
+    /\ LET D == Rec[l].dump
+           ents == {D[i] : i \in 1..Len(D)}
+       IN committed' = [p \in {<<>>} \cup {e[1] : e \in ents} |->
+                          IF p = <<>> THEN RootEntry
+                          ELSE LET e == CHOOSE x \in ents : x[1] = p IN [k |-> e[2], x |-> e[3]]]
+    /\ UNCHANGED <<txs, isOpen, taint>>
+
 \* events of other layers (hook points, I/O) recorded in the same stream: stutter
-KVEvents == {"hdr", "reset", "opened", "begin", "op", "commit", "drop", "reopen", "check"}
+KVEvents == {"hdr", "reset", "load", "opened", "begin", "op", "commit", "drop", "reopen", "check"}
 TOther == l <= Len(Rec) /\ Rec[l].ev \notin KVEvents /\ l' = l + 1 /\ Skip
 
 TBegin ==
@@ -102,7 +113,7 @@ TCheck ==
     /\ IF taint \/ Rec[l].res = OK THEN Skip
        ELSE Report("check", {OK}) /\ Skip
 
-TNext == THdr \/ TReset \/ TOpened \/ TOther \/ TBegin \/ TOp \/ TCommit \/ TDrop \/ TReopen \/ TCheck
+TNext == THdr \/ TReset \/ TLoad \/ TOpened \/ TOther \/ TBegin \/ TOp \/ TCommit \/ TDrop \/ TReopen \/ TCheck
 
 TSpec == TInit /\ [][TNext]_tvars
 
@@ -111,7 +122,7 @@ TInv == KVTypeOK
 
 \* the action properties of L0, on every step of the matched behaviour that is not the
 \* start of a new history
-NotReset == l <= Len(Rec) /\ Rec[l].ev # "reset"
+NotReset == l <= Len(Rec) /\ Rec[l].ev \notin {"reset", "load"}
 TSnapshotStable ==
     [][NotReset => \A t \in DOMAIN txs \cap DOMAIN txs' :
                       ~txs[t].w => txs'[t].view = txs[t].view]_tvars
